@@ -140,8 +140,109 @@ func genReq(r *rand.Rand, g *xg, shape string) Req {
 	return q
 }
 
+const wdCap = "urn:ietf:params:netconf:capability:with-defaults:1.0"
+
+// wdVariants are the with-defaults capability forms of the server hello: name -> (also-supported list, escaped?).
+var wdVariants = []struct {
+	name string
+	also string
+	raw  bool // '&' written unescaped (seen in the field, not well-formed XML)
+	none bool
+}{
+	{name: "absent", none: true},
+	{name: "basic-only"},
+	{name: "also=1", also: "report-all"},
+	{name: "also=2", also: "report-all,trim"},
+	{name: "also=3", also: "report-all,report-all-tagged,trim"},
+	{name: "also=4", also: "report-all,report-all-tagged,trim,explicit"},
+	{name: "also=1-raw-amp", also: "report-all", raw: true},
+	{name: "also=3-raw-amp", also: "report-all-tagged,trim,report-all", raw: true},
+}
+
+var otherCaps = []string{
+	"urn:ietf:params:netconf:capability:candidate:1.0",
+	"urn:ietf:params:netconf:capability:confirmed-commit:1.0",
+	"urn:ietf:params:netconf:capability:confirmed-commit:1.1",
+	"urn:ietf:params:netconf:capability:validate:1.0",
+	"urn:ietf:params:netconf:capability:validate:1.1",
+	"urn:ietf:params:netconf:capability:xpath:1.0",
+	"urn:ietf:params:netconf:capability:startup:1.0",
+	"urn:ietf:params:netconf:capability:writable-running:1.0",
+	"urn:ietf:params:netconf:capability:rollback-on-error:1.0",
+	"urn:ietf:params:netconf:capability:notification:1.0",
+	"urn:ietf:params:netconf:capability:interleave:1.0",
+	"urn:ietf:params:netconf:capability:url:1.0?scheme=http,ftp,file",
+	"urn:ietf:params:netconf:capability:yang-library:1.0?revision=2016-06-21&amp;module-set-id=42",
+	"urn:ietf:params:netconf:capability:yang-library:1.1?revision=2019-01-04&amp;content-id=7",
+	"urn:ietf:params:xml:ns:yang:ietf-netconf-with-defaults?module=ietf-netconf-with-defaults&amp;revision=2011-06-01",
+	"http://example.com/ns/if?module=if&amp;revision=2020-01-01&amp;features=a,b",
+}
+
+// genCaps draws the server hello's extra capabilities. wd < 0: PRNG choice of the with-defaults form.
+func genCaps(r *rand.Rand, wd int, lean bool) (caps []string, name string) {
+	if wd < 0 {
+		wd = r.Intn(len(wdVariants))
+	}
+	v := wdVariants[wd]
+	name = v.name
+	if !v.none {
+		basic := "explicit"
+		if r.Intn(3) == 0 {
+			basic = []string{"report-all", "trim", "explicit"}[r.Intn(3)]
+			name += "/basic=" + basic
+		}
+		c := wdCap + "?basic-mode=" + basic
+		if v.also != "" {
+			amp := "&amp;"
+			if v.raw {
+				amp = "&"
+			}
+			c += amp + "also-supported=" + v.also
+		}
+		caps = append(caps, c)
+	}
+	for _, c := range otherCaps {
+		p := 2
+		if lean && (strings.Contains(c, ":xpath:") || strings.Contains(c, ":confirmed-commit:")) {
+			continue // a hello lacking :xpath and :confirmed-commit
+		}
+		if r.Intn(p) == 0 {
+			caps = append(caps, c)
+		}
+	}
+	r.Shuffle(len(caps), func(i, j int) { caps[i], caps[j] = caps[j], caps[i] })
+	return caps, name
+}
+
+// capsSession: every with-defaults mode (x filter kind), xpath filters and all commit variants
+// against one with-defaults form of the server hello.
+func capsSession(r *rand.Rand, wd int, version string, lean bool) Session {
+	s := newSessionCaps(r, "caps", version, r.Intn(2) == 0, r.Intn(2) == 0, wd, lean)
+	g := &xg{r: r, mb: r.Intn(3) != 0}
+	var reqs []Req
+	for _, mode := range defaultsPool {
+		for _, sh := range []string{"get-config", "get-config-subtree", "get-config-xpath"} {
+			q := genReq(r, g, sh)
+			q.Defaults = mode
+			reqs = append(reqs, q)
+		}
+	}
+	for _, sh := range []string{"get-xpath", "commit", "commit-confirmed", "commit-confirmed-timeout", "commit-persist", "commit-persist-id", "validate", "lock"} {
+		reqs = append(reqs, genReq(r, g, sh))
+	}
+	r.Shuffle(len(reqs), func(i, j int) { reqs[i], reqs[j] = reqs[j], reqs[i] })
+	s.Reqs = reqs
+	return s
+}
+
+func newSessionCaps(r *rand.Rand, kind, version string, force, header bool, wd int, lean bool) Session {
+	s := Session{Kind: kind, Version: version, Via: []string{"caps", "preferred"}[r.Intn(2)], Force: force, Header: header, Seg: genSeg(r)}
+	s.Caps, s.WD = genCaps(r, wd, lean)
+	return s
+}
+
 func newSession(r *rand.Rand, kind, version string, force, header bool) Session {
-	return Session{Kind: kind, Version: version, Via: []string{"caps", "preferred"}[r.Intn(2)], Force: force, Header: header, Seg: genSeg(r)}
+	return newSessionCaps(r, kind, version, force, header, -1, r.Intn(3) == 0)
 }
 
 // gridSession: every shape at least once in one (version, force, header) cell, shuffled, 19..30 requests.
@@ -311,9 +412,9 @@ func noAnswerSession(r *rand.Rand, k int) Session {
 // Gen is the case list: a pure function of (tier, seed).
 func Gen(tier string, seed int64) []mon.Case {
 	r := rand.New(rand.NewSource(seed*104729 + 3))
-	nGrid, nSweep, nRandom, nBig, nNoAns := 4, 2, 150, 8, 24
+	nGrid, nSweep, nRandom, nBig, nNoAns, nCaps := 4, 2, 150, 8, 24, 1
 	if tier == "thorough" {
-		nGrid, nSweep, nRandom, nBig, nNoAns = 40, 12, 9000, 128, 400
+		nGrid, nSweep, nRandom, nBig, nNoAns, nCaps = 40, 12, 9000, 128, 400, 6
 	}
 	var ss []Session
 	for round := 0; round < nGrid; round++ {
@@ -342,6 +443,13 @@ func Gen(tier string, seed int64) []mon.Case {
 	}
 	for i := 0; i < nBig; i++ {
 		ss = append(ss, bigSession(r, i))
+	}
+	for round := 0; round < nCaps; round++ {
+		for wd := range wdVariants {
+			for vi, v := range []string{"1.0", "1.1"} {
+				ss = append(ss, capsSession(r, wd, v, (wd+vi+round)%2 == 0))
+			}
+		}
 	}
 	for i := 0; i < nNoAns; i++ {
 		ss = append(ss, noAnswerSession(r, i))
